@@ -46,6 +46,14 @@ def parseRows (s : String) : Option (List (List Nat)) :=
 def parseMasks (s : String) : Option (List Mask) :=
   if s == "-" then some [] else (s.splitOn ",").mapM parseMask
 
+/-- `<pos><r|m>,…` → (position, mutable?) -/
+def parseResViews (s : String) : Option (List (Nat × Bool)) :=
+  if s == "-" then some [] else
+  (s.splitOn ",").mapM (fun t =>
+    let m := t.endsWith "m"
+    if !(m || t.endsWith "r") then none else
+    ((t.dropEnd 1).toString.toNat?).map (fun p => (p, m)))
+
 def St.getW (st : St) (i : Nat) : Option World := (st.worlds.getD i none)
 
 def St.setW (st : St) (i : Nat) (w : Option World) : St :=
@@ -202,6 +210,29 @@ def runOp (st : St) (wi : Nat) (name : String) (args : List String) : St × Stri
     | none => bad
   | "len", [] =>
     withW fun w => (st, s!"ok len={w.len} empty={if w.isEmpty then 1 else 0}")
+  | "res", ["set", pS, vS] =>
+    match pS.toNat?, vS.toNat? with
+    | some p, some v =>
+      withW fun w =>
+        match w.res[p]? with
+        | some old => (st.setW wi (some { w with res := w.res.set p (mkVal k (resTy p) v) }), s!"ok drops={dropsStr k [old]}")
+        | none => (st, "bad-op")
+    | _, _ => bad
+  | "res", ["view", descS, eS] =>
+    withW fun w =>
+      match parseResViews descS with
+      | none => (st, "bad-op")
+      | some vs =>
+        if vs.any (fun v => v.1 ≥ w.res.length) || !(vs.map (·.1)).Nodup then (st, "bad-op") else
+        let vals := vs.filterMap (fun v => w.res[v.1]?)
+        let valsS := String.intercalate "," (vals.map (valStr k))
+        match eS.toNat? with
+        | some e =>
+          let muts := (vs.filter (·.2)).map (·.1)
+          let drops := muts.filterMap (fun p => w.res[p]?)
+          let res' := (List.zip (List.range w.res.length) w.res).map (fun (p, v) => if muts.contains p then cloneVal e v else v)
+          (st.setW wi (some { w with res := res' }), s!"ok vals={valsS} drops={dropsStr k drops}")
+        | none => (st, s!"ok vals={valsS} drops=")
   | "de", [modeS, eS, _srcS, toksS] =>
     match eS.toNat? with
     | some e =>
@@ -423,6 +454,26 @@ def specOnResult (st : St) (toks : List String) : St × List String :=
         let outs := asym ++ refl ++ unsound
         ({ st with oracleFails := st.oracleFails + outs.length }, outs)
       | none => (st, [])
+    | "res", ["set", pS, vS] =>
+      match st.getS wi, pS.toNat?, vS.toNat? with
+      | some s, some p, some v =>
+        let (st, o) := checkDrops st (match s.res[p]? with | some x => [x] | none => [])
+        (st.setS wi (some { s with res := s.res.set p (mkVal k (resTy p) v) }), o)
+      | _, _, _ => (st, [])
+    | "res", ["view", descS, eS] =>
+      match st.getS wi, parseResViews descS with
+      | some s, some vs =>
+        let want := String.intercalate "," ((vs.filterMap (fun v => s.res[v.1]?)).map (valStr k))
+        let (st, o1) := if fieldOf toks "vals" == some want then (st, []) else
+          fail st "res" s!"view_resources [{descS}] returned [{(fieldOf toks "vals").getD ""}] but the reference holds [{want}]"
+        match eS.toNat? with
+        | some e =>
+          let muts := (vs.filter (·.2)).map (·.1)
+          let (st, o2) := checkDrops st (muts.filterMap (fun p => s.res[p]?))
+          let res' := (List.zip (List.range s.res.length) s.res).map (fun (p, v) => if muts.contains p then cloneVal e v else v)
+          (st.setS wi (some { s with res := res' }), o1 ++ o2)
+        | none => (st, o1)
+      | _, _ => (st, [])
     | "de", [_mode, eS, srcS, _toks] =>
       if status == "ok" then
         let old := match st.getS wi with | some s => some (specVals k s) | none => none
